@@ -61,7 +61,6 @@ fn sel_oracle_with(list: &[(&'static str, Metadata)], c: &SelCase, cx: &mut Case
     let nargs = m.history.all_paths().next().map(|p| p.split('/').filter(|s| s.starts_with(':')).count()).unwrap_or(0);
     let args: Vec<String> = (0..nargs).map(|i| format!("arg{i}")).collect();
     let dyn_args: Vec<&dyn std::fmt::Display> = args.iter().map(|a| a as &dyn std::fmt::Display).collect();
-    let got = m.make_endpoint_url(&versions, "https://hs.example/", &dyn_args, "");
     let want = ref_select(m, &versions).map(|p| {
         let mut i = 0;
         let segs: Vec<String> = p
@@ -83,11 +82,33 @@ fn sel_oracle_with(list: &[(&'static str, Metadata)], c: &SelCase, cx: &mut Case
     cx.class_if(m.history.deprecated_in().is_some(), "deprecated_endpoint");
     cx.class_if(want.is_err(), "selection_error");
     cx.nontrivial_if(stable >= 2 || m.history.deprecated_in().is_some());
-    match (&got, &want) {
-        (Ok(g), Ok(w)) if g == w => Ok(()),
-        (Err(_), Err(_)) => Ok(()),
-        _ => Err(format!("{name}: with supported versions {versions:?} the endpoint URL is {:?}, the metadata prescribes {:?} (stable paths {:?}, unstable {:?}, deprecated {:?}, removed {:?})", got.as_ref().map_err(|e| e.to_string()), want, m.history.stable_paths().collect::<Vec<_>>(), m.history.unstable_paths().collect::<Vec<_>>(), m.history.deprecated_in(), m.history.removed_in())),
+    // the supported versions are a set: the slice's order and repetitions must not matter
+    let mut orders: Vec<Vec<MatrixVersion>> = vec![versions.clone()];
+    if versions.len() >= 2 {
+        let mut d = versions.clone();
+        d.reverse();
+        orders.push(d);
+        let mut r = versions.clone();
+        let k = 1 + (c.versions as usize).wrapping_mul(2654435761) % (versions.len() - 1).max(1);
+        r.rotate_left(k % versions.len());
+        r.swap(0, (c.versions as usize / 7) % versions.len());
+        orders.push(r);
+        let mut dup = versions.clone();
+        dup.push(versions[0]);
+        dup.insert(0, versions[versions.len() - 1]);
+        orders.push(dup);
+        cx.class("unsorted_and_repeated_version_lists");
+        cx.more_evals(3);
     }
+    for versions in &orders {
+        let got = m.make_endpoint_url(versions, "https://hs.example/", &dyn_args, "");
+        match (&got, &want) {
+            (Ok(g), Ok(w)) if g == w => {}
+            (Err(_), Err(_)) => {}
+            _ => return Err(format!("{name}: with supported versions {versions:?} the endpoint URL is {:?}, the metadata prescribes {:?} (stable paths {:?}, unstable {:?}, deprecated {:?}, removed {:?})", got.as_ref().map_err(|e| e.to_string()), want, m.history.stable_paths().collect::<Vec<_>>(), m.history.unstable_paths().collect::<Vec<_>>(), m.history.deprecated_in(), m.history.removed_in())),
+        }
+    }
+    Ok(())
 }
 
 /// Authentication header per scheme x token kind.
